@@ -144,3 +144,54 @@ package riscv
 //@   ensures[shift]   err == nil && (isa_fmt(k) == 7 || isa_fmt(k) == 8) ==> d_f3(w) == isa_f3(k) && d_rd(w) == reg(arg.Rd) && d_rs1(w) == reg(arg.Rs1) && d_f7(w) == isa_f7(k) && d_rs2(w) == uint32(arg.Imm)
 //@   ensures[fixed]   err == nil && isa_fmt(k) == 9 ==> w == (isa_f7(k) << 20) | 0x73
 //@   property C17
+
+// ---------------------------------------------------------------- Wa's own decoder
+//
+// DecodeEx against the same ISA oracle: every word that the ISA assigns to a claimed mnemonic decodes to
+// that mnemonic, and the operands are the ISA fields (sign-extended immediates; shift amounts: 6 bits for
+// OP-IMM, 5 bits for OP-IMM-32). Together with the encoder contract this is decode(encode(i)) == i.
+
+//@ func (_OpcodeType).decodeR
+//@   transparent
+//@   loop 0 unroll 400
+//@ func (_OpcodeType).decodeR4
+//@   transparent
+//@   loop 0 unroll 400
+//@ func (_OpcodeType).decodeI
+//@   transparent
+//@   loop 0 unroll 400
+//@ func (_OpcodeType).decodeS
+//@   transparent
+//@   loop 0 unroll 400
+//@ func (_OpcodeType).decodeB
+//@   transparent
+//@   loop 0 unroll 400
+//@ func (_OpcodeType).decodeU
+//@   transparent
+//@   loop 0 unroll 400
+//@ func (_OpcodeType).decodeJ
+//@   transparent
+//@   loop 0 unroll 400
+
+//@ spec isa_match(k abi.As, x uint32) bool := d_op(x) == isa_op(k) && (
+//@      (isa_fmt(k) == 1 && d_f3(x) == isa_f3(k) && d_f7(x) == isa_f7(k)) ||
+//@      ((isa_fmt(k) == 2 || isa_fmt(k) == 3 || isa_fmt(k) == 4) && d_f3(x) == isa_f3(k)) ||
+//@      isa_fmt(k) == 5 || isa_fmt(k) == 6 ||
+//@      (isa_fmt(k) == 7 && d_f3(x) == isa_f3(k) && d_f6(x) == isa_f7(k) >> 1) ||
+//@      (isa_fmt(k) == 8 && d_f3(x) == isa_f3(k) && d_f7(x) == isa_f7(k)) ||
+//@      (isa_fmt(k) == 9 && x == (isa_f7(k) << 20) | 0x73))
+//@ spec is_shift_word(x uint32) bool := (d_op(x) == 0x13 || d_op(x) == 0x1b) && (d_f3(x) == 1 || d_f3(x) == 5)
+//@ spec xreg(n uint32) abi.RegType := abi.RegType(n) + REG_X0
+
+//@ func DecodeEx
+//@   ensures[as]    foreach k in keys(_AOpContextTable) where isa(k) != 0 :: isa_match(k, x) ==> err == nil && as == k
+//@   ensures[Rops]  err == nil && (d_op(x) == 0x33 || d_op(x) == 0x3b) ==> arg.Rd == xreg(d_rd(x)) && arg.Rs1 == xreg(d_rs1(x)) && arg.Rs2 == xreg(d_rs2(x))
+//@   ensures[Iops]  err == nil && (d_op(x) == 0x13 || d_op(x) == 0x1b || d_op(x) == 0x67 || d_op(x) == 0x03 || d_op(x) == 0x0f) ==> arg.Rd == xreg(d_rd(x)) && arg.Rs1 == xreg(d_rs1(x))
+//@   ensures[Iimm]  err == nil && (d_op(x) == 0x13 || d_op(x) == 0x1b || d_op(x) == 0x67 || d_op(x) == 0x03 || d_op(x) == 0x0f) && !is_shift_word(x) ==> arg.Imm == int32(d_immI(x))
+//@   ensures[shamt6] err == nil && d_op(x) == 0x13 && (d_f3(x) == 1 || d_f3(x) == 5) ==> arg.Imm == int32(d_sh6(x))
+//@   ensures[shamt5] err == nil && d_op(x) == 0x1b && (d_f3(x) == 1 || d_f3(x) == 5) ==> arg.Imm == int32(d_rs2(x))
+//@   ensures[Sops]  err == nil && d_op(x) == 0x23 ==> arg.Rs1 == xreg(d_rs1(x)) && arg.Rs2 == xreg(d_rs2(x)) && arg.Imm == int32(d_immS(x))
+//@   ensures[Bops]  err == nil && d_op(x) == 0x63 ==> arg.Rs1 == xreg(d_rs1(x)) && arg.Rs2 == xreg(d_rs2(x)) && arg.Imm == int32(d_immB(x))
+//@   ensures[Uops]  err == nil && (d_op(x) == 0x37 || d_op(x) == 0x17) ==> arg.Rd == xreg(d_rd(x)) && arg.Imm == int32(d_immU(x))
+//@   ensures[Jops]  err == nil && d_op(x) == 0x6f ==> arg.Rd == xreg(d_rd(x)) && arg.Imm == int32(d_immJ(x))
+//@   property C17
